@@ -263,6 +263,26 @@ def run(chk):
   chk.ob('C12-R2', bool(early), None, 'a finished import returns without parsing the file again',
          'a file imported along several paths is included more than once', fi=v.fi)
 
+  # what stands for an imported file was parsed FOR THIS PROGRAM: the prefix of
+  # its predicates is chosen against the files already parsed for the program
+  # and is baked into every rule, so a parse made for another program (a
+  # cross-call cache) brings another program's names
+  foreign = None
+  for n, st in final:
+    values = [st.value]
+    if isinstance(st.value, ast.Name):
+      values = [x for x in v.assigned_from(st.value.id)]
+    for val in values:
+      ok_ = isinstance(val, ast.Call) and PF in repo.resolve(v.fi, val)
+      if not ok_:
+        foreign = (st, norm(val, 50) if isinstance(val, ast.AST) else str(val))
+  chk.ob('C12-R2', foreign is None, None,
+         'the stored parse of an imported file is the ParseFile result of this call',
+         'parsed_imports receives `%s`, not a parse made for the importing program: '
+         'the per-file prefix (and every name renamed with it) was chosen for some '
+         'other program - private predicates of two files can collide' % (
+             foreign[1] if foreign else ''), fi=v.fi, node=foreign[0] if foreign else None)
+
   chk.rule('C12-R3', 'renaming covers every defined and made predicate of an '
            'imported file (only @annotations and ++? are exempt) and uses the '
            "imported file's own prefix for imported names; the renaming walker "
